@@ -242,7 +242,21 @@ def rule_sites(ctx):
     else:
         ctx.bad(rid, "jxl_render::RenderContext::render_op|eof-question-missing", "the per-frame render closure no longer asks unexpected_eof(): "
                 "a partially loaded frame becomes a permanent FrameRender::Err", fn=prog.fn("jxl_render::RenderContext::render_op"))
-    # has_error poisoning only on non-EOF errors
+    # has_error poisoning only on non-EOF errors.  The store may sit in a small helper (`record_error`): functions of jxl_frame that
+    # do nothing but store into has_error count as the store at their call sites.
+    from ..mirutil import access_path as _ap
+    setters = set()
+    for g in prog.crate("jxl_frame").fn_list:
+        gd = None
+        for b, t in g.calls():
+            c = callee(t)
+            if c and c["fn"].startswith("core::sync::atomic::Atomic") and c["fn"].endswith("::store") and t[2]:
+                if gd is None:
+                    gd = Defs(g)
+                l = op_local(t[2][0])
+                ap = _ap(g, gd, l) if l is not None else None
+                if ap and ap[1] and ap[1][-1] == "has_error" and len(g.blocks) <= 6 and not g.path.startswith("jxl_frame::Frame::try_parse"):
+                    setters.add(g.path)
     for path in ("jxl_frame::Frame::try_parse_lf_global", "jxl_frame::Frame::try_parse_lf_group", "jxl_frame::Frame::try_parse_hf_global"):
         if path not in found:
             continue
@@ -257,6 +271,8 @@ def rule_sites(ctx):
                 ap = access_path(f, defs, l) if l is not None else None
                 if ap and ap[1] and ap[1][-1] == "has_error":
                     stores.append(b)
+            elif c and (c["fn"] in setters or c.get("res") in setters):
+                stores.append(b)
         if not stores:
             ctx.bad(rid, "%s|has_error-store-missing" % path, "no has_error store found in %s (table must be re-confirmed)" % path, fn=f)
             continue
